@@ -1,6 +1,8 @@
 import Driver.Proto
 import SpsdkVerif.Model.Fresh
 import SpsdkVerif.Generated.SecretSites
+import SpsdkVerif.Model.FreshObj
+import SpsdkVerif.Generated.SecretState
 open SpsdkVerif Driver
 open SpsdkVerif.Fresh
 
@@ -56,7 +58,45 @@ def renderRun (h : History) : String :=
     if xs.isEmpty then "_" else ",".intercalate (xs.map fun p => s!"{p.1.site}:{p.2}:{if isEarly p.1.site then "e" else "c"}")
   "/".intercalate perBuild
 
+/-
+  slots                   -> `idx|kind|cls|slot|method|role|resets|direct;...`   Generated.secretSlots
+  objrun n,0/r,0,5,_/e,0  -> history with object identity: `n,o` new object, `r,o,p,u` re-specification of object o through row p of
+                             secretSlots supplying user value number u (`_` = nothing), `e,o` artifact emitted from o;
+                             answer per artifact (oldest first) `supplied:value` with value `u<k>` (user value k) or `c<rank>`.
+-/
+def roleStr : Role → String
+  | .init => "init" | .getter => "getter" | .lazy => "lazy" | .respec => "respec" | .other => "other"
+
+def slotsLine : String :=
+  let rows := (Generated.secretSlots.zipIdx).map fun (r, i) =>
+    s!"{i}|{kindStr r.kind}|{r.cls}|{r.slot}|{r.method}|{roleStr r.role}|{if r.resets then 1 else 0}|{if r.direct then 1 else 0}"
+  if rows.isEmpty then "-" else ";".intercalate rows
+
+def parseStep (s : String) : Option Step :=
+  match s.splitOn "," with
+  | ["n", o] => o.toNat?.map .new
+  | ["e", o] => o.toNat?.map .emit
+  | ["r", o, p, u] =>
+    match o.toNat?, p.toNat? with
+    | some o, some p => if u == "_" then some (.respec o p none) else u.toNat?.map (fun u => .respec o p (some u))
+    | _, _ => none
+  | _ => none
+
+def renderObjRun (h : List Step) : String :=
+  let arts := (runObj (Generated.secretSlots.map (·.resets)) h).reverse
+  let (_, out) := arts.foldl (fun (acc : List Token × List String) a =>
+    match a.val with
+    | .user u => (acc.1, acc.2 ++ [s!"{if a.supplied then 1 else 0}:u{u}"])
+    | .chosen t =>
+      let (l, seen') := labelOf acc.1 t
+      (seen', acc.2 ++ [s!"{if a.supplied then 1 else 0}:c{l}"])) ([], [])
+  if out.isEmpty then "_" else "/".intercalate out
+
 def step : List String → String
+  | ["slots"] => slotsLine
+  | ["objrun", h] => match (h.splitOn "/").mapM parseStep with
+    | some hh => renderObjRun hh
+    | none => "bad-op"
   | ["table"] => tableLine
   | ["wrappers"] => wrappersLine
   | ["run", h] => match parseHistory h with
